@@ -1067,13 +1067,13 @@ class DynGraph(nx.Graph):
                     continue
 
                 if f_from >= a and i_to <= b:
-                    H.add_interaction(u, v, f_from, i_to)
+                    H.add_interaction(u, v, f_from, i_to + 1)
                 elif a >= f_from and i_to <= b:
-                    H.add_interaction(u, v, a, i_to)
+                    H.add_interaction(u, v, a, i_to + 1)
                 elif f_from>=a and b<= i_to:
-                    H.add_interaction(u, v, f_from, b)
+                    H.add_interaction(u, v, f_from, b + 1)
                 elif f_from <= a and b <= i_to:
-                    H.add_interaction(u, v, a, b)
+                    H.add_interaction(u, v, a, b + 1)
 
         for n in H.nodes():
             H._node[n] = self._node[n]
